@@ -14,6 +14,7 @@
      pstart c n      a goroutine calls session c .Proxy(n, 1); parked at gate session.client.enter (found) or returned
      pdial c         released; parked at gate session.client.dialed (connected) or returned
      pmeta c         released; Proxy returns; a proxy is called (Hello) and must reach the object the model names
+     drop c          the relay in front of the service server closes the connection the parked session has just made
    obs, compared after every command: the outcome, the directory's list and every lookup as a FRESH session sees
    them, the events a subscriber received during the step, the requests of the servers that reached the directory during the step, what session.Proxy(n, 1) + Hello of a fresh session
    gives for every name, the identifiers every running server routes, OnTerminate counters, pool sizes.
@@ -50,7 +51,8 @@ GNext == \/ \E s \in Srv : \/ \E n \in Names : NsStart(s, n) /\ Step(Op("nsstart
          \/ \E c \in Clients : \/ \E n \in Names : PStart(c, n) /\ Step(Op("pstart", c, n, 0, ""))
                                \/ PDial(c) /\ Step(Op("pdial", c, "", 0, ""))
                                \/ PMeta(c) /\ Step(Op("pmeta", c, "", 0, ""))
+                               \/ ConnDrop(c) /\ Step(Op("drop", c, "", 0, ""))
 GSpec == GInit /\ [][GNext]_gvars
 Short == Len(hist) < MaxLen
-View == <<staging, services, lastID, up, link, routed, op, att, activated, term, natt, cl, conn, stale, ncut, nprox>>
+View == <<staging, services, lastID, up, link, routed, op, att, activated, term, natt, cl, conn, stale, ncut, nprox, ndrop>>
 =============================================================================
